@@ -290,6 +290,9 @@ func runGlue(r *Rng, st *Stats, n int, tier string) {
 	for i := 0; i < nSib; i++ {
 		projects = append(projects, scenarioSharedFailingImport(r))
 	}
+	// the minimal replay of finding C08-G4
+	projects = append(projects, &project{Kind: "shared-failing-import", Errors: true, Entries: []string{"src/a.js", "src/b.js"}, Files: map[string]string{
+		"src/a.js": "import './data.xyz'\n", "src/b.js": "\n\nimport   './data.xyz'\n", "src/data.xyz": "x"}})
 	rootsA := make([]string, len(projects))
 	rootsB := make([]string, len(projects))
 	for i, p := range projects {
@@ -420,7 +423,11 @@ func runGlue(r *Rng, st *Stats, n int, tier string) {
 					what = "build-depends-on-absolute-location"
 				}
 			}
-			rk := fmt.Sprintf("%s|%d|%s|%s", what, j.proj, v.Name, section)
+			diffKind := "general"
+			if stripImporterLocated(ref.out) == stripImporterLocated(j.out) {
+				diffKind = "only-importer-located-message-location"
+			}
+			rk := fmt.Sprintf("%s|%d|%s|%s|%s", what, j.proj, v.Name, section, diffKind)
 			if reported[rk] {
 				st.Histogram["FAIL-repeat:"+what]++
 				continue
@@ -428,7 +435,7 @@ func runGlue(r *Rng, st *Stats, n int, tier string) {
 			reported[rk] = true
 			st.Fail(what, map[string]interface{}{
 				"scenario": p.Kind, "project": p, "options": v, "schedule_reference": ref.sched, "schedule_other": j.sched,
-				"differs_in": section, "same_schedule_rebuilt_equals_other": again.out == j.out,
+				"differs_in": section, "same_schedule_rebuilt_equals_other": again.out == j.out, "difference_kind": diffKind,
 			}, got, want)
 		}
 	}
@@ -452,4 +459,27 @@ func b2i(b bool) int {
 		return 1
 	}
 	return 0
+}
+
+// removes the diagnostics that parseFile locates at "the import that reached
+// the file first" (no-loader, do-not-know-how-to-load, unsupported import
+// attribute, on-load plugin messages) together with their notes: if two
+// results are equal after that, they differ only in where those messages point
+func stripImporterLocated(out string) string {
+	var sb strings.Builder
+	skipNotes := false
+	for _, line := range strings.Split(out, "\n") {
+		if strings.HasPrefix(line, "    note ") && skipNotes {
+			continue
+		}
+		skipNotes = false
+		if strings.HasPrefix(line, "[") && (strings.Contains(line, "\"No loader is configured for ") || strings.Contains(line, "\"Do not know how to load path") ||
+			strings.Contains(line, "\"Importing with ") || !strings.Contains(line, "plugin=\"\"")) {
+			skipNotes = true
+			continue
+		}
+		sb.WriteString(line)
+		sb.WriteByte('\n')
+	}
+	return sb.String()
 }
